@@ -122,6 +122,18 @@ func (cfg *StackCfg) Kinds() []string {
 	return out
 }
 
+// Chain returns the kinds along the first branch, top-down (multiplicity kept), e.g.
+// ["writeevict", "writeevict", "ideal"].
+func (cfg *StackCfg) Chain() []string {
+	var out []string
+	ns := cfg.Top
+	for len(ns) > 0 {
+		out = append(out, ns[0].Kind)
+		ns = ns[0].Lower
+	}
+	return out
+}
+
 // Describe renders the tree compactly, e.g. "writeback>rob>[ideal|ideal]/4096".
 func (cfg *StackCfg) Describe() string {
 	var rec func(ns []Node, il uint64) string
@@ -190,6 +202,22 @@ func (c *Comp) SnapshotDirectory() []DirBlock {
 		for w := range d.Sets[s].Blocks {
 			b := &d.Sets[s].Blocks[w]
 			out = append(out, DirBlock{Set: s, Way: w, Tag: b.Tag, PID: b.PID, Valid: b.IsValid, Dirty: b.IsValid && b.IsDirty})
+		}
+	}
+	return out
+}
+
+// PendingEvictions lists the lines whose eviction write-back a write-back cache has queued in
+// its write buffer but not sent yet (nil for other components).
+func (c *Comp) PendingEvictions() []uint64 {
+	if c.WB == nil {
+		return nil
+	}
+	var out []uint64
+	st := &c.WB.State
+	for _, idx := range st.PendingEvictionIndices {
+		if idx >= 0 && idx < len(st.Transactions) {
+			out = append(out, st.Transactions[idx].EvictingAddr)
 		}
 	}
 	return out
